@@ -1,10 +1,82 @@
 import PewDriver.Util
+import PewModel.FastParse
 open Lean
 namespace PewDriver.C17
-open PewDriver
+open PewDriver Pew.FastParse
 
-def handle (op : String) (_req : Json) : R Json := do
+def parseItem (j : Json) : R Item := do
+  let t ← getStr j "t"
+  match t with
+  | "cv" => pure (.cv (← getStr j "acc") (← fld j "value" >>= asOpt asStr))
+  | "ref" => pure (.ref (← getStr j "ref"))
+  | "user" => pure .misc
+  | "misc" => pure .misc
+  | _ => throw s!"bad item kind {t}"
+
+def items (j : Json) (k : String) : R (List Item) := getList parseItem j k
+
+def parseSpec (j : Json) : R Spec := do
+  pure { items := ← items j "items", scanlist := ← items j "scanlist",
+         scans := ← getList (asList parseItem) j "scans",
+         arrays := ← getList (fun a => do pure ({ items := ← items a "items" } : Arr)) j "arrays",
+         tail := ← items j "tail" }
+
+def sects (j : Json) (k : String) : R (List Sect) :=
+  getList (fun s => do pure ({ items := ← items s "items" } : Sect)) j k
+
+def parseDoc (j : Json) : R Doc := do
+  pure { decl := ← getBool j "decl", pre := ← sects j "pre", mid1 := ← sects j "mid1",
+         mid2 := ← sects j "mid2", post := ← sects j "post",
+         settingsFirst := ← getBool j "settings_first",
+         groups := ← getList (fun g => do pure ({ id := ← getStr g "id", items := ← items g "items" } : Group)) j "groups",
+         settings := ← getList (fun s => do pure ({ items := ← items s "items" } : Settings)) j "settings",
+         spectra := ← getList parseSpec j "spectra" }
+
+def jPGroup (g : PGroup) : Json :=
+  jObj [("id", jStr g.id), ("dtype", jStr g.dtype), ("external", jBool g.external)]
+
+def jModel (m : Model) : Json :=
+  jObj [("size", jOpt (fun (p : String × String) => jList jStr [p.1, p.2]) m.scan.size),
+        ("pixel", jList jStr [m.scan.pixel.1, m.scan.pixel.2]),
+        ("mz", jPGroup m.mz), ("inten", jPGroup m.inten),
+        ("spectra", jList (fun (s : SpecInfo) =>
+          jObj [("x", jStr s.x), ("y", jStr s.y), ("tic", jOpt jStr s.tic),
+                ("arrays", jList (fun (a : String × String × String) => jList jStr [a.1, a.2.1, a.2.2]) s.arrays)]) m.spectra)]
+
+def errName : Err → String
+  | .eof => "eof" | .keyError => "KeyError" | .typeError => "TypeError" | .valueError => "ValueError"
+  | .indexError => "IndexError" | .aborted => "UserWarning"
+
+def jResult : Except Err Model → Json
+  | .ok m => jObj [("ok", jModel m)]
+  | .error e => jObj [("raises", jStr (errName e))]
+
+def handle (op : String) (req : Json) : R Json := do
   match op with
+  | "c17.parse" =>
+    let d ← fld req "doc" >>= parseDoc
+    let lens ← getList asNat req "lens"
+    let cname ← getStr req "cls"
+    let cls ← match cname with
+      | "any" => pure clsAny
+      | "word" => pure clsWord
+      | _ => throw s!"bad class {cname}"
+    -- index of the callback invocation that returns False (null: the callback always returns True)
+    let abortAt ← fld req "abort_call" >>= asOpt asNat
+    let lines := render cls d
+    if lines.length ≠ lens.length then throw s!"{lines.length} lines rendered, {lens.length} lengths given"
+    let ls := lines.zip lens
+    let free := run (fun _ => true) ls
+    let cb : Nat → Bool := match abortAt with
+      | none => fun _ => true
+      | some k => match free.calls[k]? with
+        | some p => fun q => q != p
+        | none => fun _ => true
+    let s := run cb ls
+    pure (jObj [("fast", jResult (fastParse cb ls)), ("calls", jList jNat s.calls),
+                ("fast_free", jResult (fastParse (fun _ => true) ls)), ("calls_free", jList jNat free.calls),
+                ("xml", jOpt jModel (xmlView d)),
+                ("layout", jBool (decide (Layout cls d))), ("nlines", jNat lines.length)])
   | _ => throw s!"unknown op {op}"
 
 end PewDriver.C17
